@@ -13,7 +13,8 @@
    returned, and the curve distance [dist_of] is a parameter; with
    [dist_total] the whole decode is [Done]. *)
 From RM Require Import Model.Decoders Proofs.FramingFacts Proofs.ControlPointsFacts
-     Proofs.HitObjectLineFacts Proofs.DecodersFacts.
+     Proofs.HitObjectLineFacts Proofs.MapLevelFacts Proofs.DecodersFacts.
+From Coq Require Import Permutation.
 Open Scope Z_scope.
 
 (* ------------------------------------------------------------------ *)
@@ -244,6 +245,34 @@ Section WithDist.
   Lemma slider_dist_ok_total : dist_total -> forall h, slider_dist_ok h.
   Proof. intros Ht h. unfold slider_dist_ok. destruct (h_kind h); auto. Qed.
 
+  (* sorting permutes the objects and the break pass only sets new_combo: the
+     sliders whose distance is asked for are those of the parsed list *)
+  Lemma force_new_combo_dist_ok h f : slider_dist_ok h -> slider_dist_ok (force_new_combo h f).
+  Proof.
+    destruct h as [st k sa]. unfold slider_dist_ok, force_new_combo. cbn [h_kind h_start h_samples].
+    destruct k as [c|s|sp|hd]; cbn [h_kind sl_mode sl_control_points sl_expected_dist]; auto.
+  Qed.
+
+  Lemma post_process_breaks_dist_ok objs : forall bs,
+    Forall slider_dist_ok objs ->
+    Forall slider_dist_ok (post_process_breaks h_start force_new_combo bs objs).
+  Proof.
+    induction objs as [|h r IH]; intros bs H; cbn [post_process_breaks]; [constructor|].
+    inversion H as [|? ? Hh Hr]; subst.
+    destruct (skip_breaks bs (h_start h) false) as [bs' f].
+    constructor; [apply force_new_combo_dist_ok; exact Hh|apply IH; exact Hr].
+  Qed.
+
+  Lemma finish_hit_objects_total_on c breaks sm mode objs :
+    cp_sorted c -> Forall slider_dist_ok objs ->
+    exists l, finish_hit_objects dist_of c breaks sm mode objs = Done l.
+  Proof.
+    intros Hc Hall. unfold finish_hit_objects. apply process_objects_total; [exact Hc|].
+    apply post_process_breaks_dist_ok.
+    apply Forall_forall. intros x Hx. rewrite Forall_forall in Hall. apply Hall.
+    apply (Permutation_in x (ssort_perm start_key objs)). exact Hx.
+  Qed.
+
   Lemma finish_hit_objects_total c breaks sm mode objs : dist_total -> cp_sorted c ->
     exists l, finish_hit_objects dist_of c breaks sm mode objs = Done l.
   Proof.
@@ -313,6 +342,24 @@ Section WithDist.
     intros st (s & -> & Hs). exists s. split; [exact Hs|reflexivity].
   Qed.
 
+  (* ... and there only for a slider that is in the file: if [dist_of] is a
+     value on the sliders the parse collected, the decode returns *)
+  Theorem decode_beatmap_total_on_sliders : forall lines,
+    exists s,
+      decode_beatmap dist_of lines = bmd_finish dist_of s /\
+      (Forall slider_dist_ok (hod_objects (bmd_ho s)) ->
+       exists bv, bmd_finish dist_of s = Done bv).
+  Proof.
+    intros lines. destruct (decode_beatmap_fails_only_in_dist lines) as (s & Hs & E).
+    exists s. split; [exact E|]. intros Hall.
+    unfold bmd_finish, hod_finish.
+    destruct (tpd_finish_total (hod_tp (bmd_ho s)) Hs) as (tv & -> & Hc). cbn [obind].
+    destruct (finish_hit_objects_total_on (tpv_control_points tv) (ev_breaks (hod_events (bmd_ho s)))
+                (d_slider_multiplier (hod_difficulty (bmd_ho s))) (g_mode (tpv_general tv))
+                (hod_objects (bmd_ho s)) Hc Hall) as (objs & ->).
+    cbn [obind]. eauto.
+  Qed.
+
   (* ---------------------------------------------------------------- *)
   (* C07, both directions at once                                       *)
 
@@ -331,14 +378,14 @@ Section WithDist.
   Proof.
     intros Ht lines. destruct (decode_beatmap_total Ht lines) as (bv & Hb).
     exists bv. split; [exact Hb|].
-    repeat split; symmetry.
-    - symmetry. symmetry. exact (beatmap_general dist_of lines bv Hb).
-    - exact (beatmap_editor dist_of lines bv Hb).
-    - exact (beatmap_metadata dist_of lines bv Hb).
-    - exact (beatmap_difficulty dist_of lines bv Hb).
-    - exact (beatmap_events dist_of lines bv Hb).
-    - exact (beatmap_colors dist_of lines bv Hb).
-    - symmetry. exact (beatmap_timing_points dist_of lines bv Hb).
-    - symmetry. exact (beatmap_hit_objects_done dist_of lines bv Hb).
+    repeat split.
+    - symmetry. exact (beatmap_general dist_of lines bv Hb).
+    - symmetry. exact (beatmap_editor dist_of lines bv Hb).
+    - symmetry. exact (beatmap_metadata dist_of lines bv Hb).
+    - symmetry. exact (beatmap_difficulty dist_of lines bv Hb).
+    - symmetry. exact (beatmap_events dist_of lines bv Hb).
+    - symmetry. exact (beatmap_colors dist_of lines bv Hb).
+    - exact (beatmap_timing_points dist_of lines bv Hb).
+    - exact (beatmap_hit_objects_done dist_of lines bv Hb).
   Qed.
 End WithDist.
